@@ -26,10 +26,11 @@ POS = ("R", "S", "U")
 
 
 class Arr:
-    __slots__ = ("idx", "val", "perm")
+    __slots__ = ("idx", "val", "perm", "ptr")
 
-    def __init__(self, idx=None, val=None, perm=False):
+    def __init__(self, idx=None, val=None, perm=False, ptr=False):
         self.idx, self.val, self.perm = idx, val, perm
+        self.ptr = ptr  # a person pointer column: -1 stands for "nobody"
 
     def __repr__(self):
         return f"({self.idx}->{self.val})"
@@ -76,9 +77,12 @@ class Typer:
             if b is None:
                 return Arr(None, a.val)
             if b.val == "bool":
-                return Arr(a.idx, a.val)
+                return Arr(a.idx, a.val)  # a masked column: by convention the mask keeps the real pointers
             if isinstance(a.idx, tuple):
                 return Arr(a.idx, a.val)
+            if b.ptr:
+                self.findings.append((f"{self.fd.name}|{ast.unparse(e)[:70]}", e.lineno,
+                                      f"`{ast.unparse(e)[:90]}` uses the pointer column `{ast.unparse(sl)[:40]}` directly as an index: the value -1 (nobody) silently selects the LAST slot, i.e. the value of the person with the largest id, instead of the fall-back value"))
             self.check_index(e, a, b, "read")
             return Arr(b.idx, a.val)
         if isinstance(e, ast.Call):
@@ -170,7 +174,7 @@ class Typer:
             val = "bool" if last in ("logical_and", "logical_or", "logical_not", "isin") else "num"
             src = [a for a in args if a is not None]
             if last in ("asarray", "array", "astype", "copy") and src:
-                return Arr(src[0].idx, src[0].val, src[0].perm)
+                return Arr(src[0].idx, src[0].val, src[0].perm, src[0].ptr)
             return self.elementwise(src, val)
         return None
 
@@ -198,7 +202,7 @@ class Typer:
     def run(self):
         env = {}
         for a in self.fd.args.posonlyargs + self.fd.args.args + self.fd.args.kwonlyargs:
-            env[a.arg] = Arr("R", "v:" + a.arg)
+            env[a.arg] = Arr("R", "v:" + a.arg, ptr=(a.arg.startswith("p_id_") or a.arg in ("foreign_key",)))
         self.block(self.fd.body, env)
         return self.findings
 
